@@ -85,9 +85,10 @@ claim("C01", "DESIGN.md 5/C01", "Lean 4 induction over fuel and rank on the exec
 claim("C02", "DESIGN.md 5/C02", "Lean 4 theorems (the run computes a solution of the graph equations; solutions are unique) + replay of every real execute call on the model + invariance oracles",
       "Theorems in MPilot.C02: run_sol (after a successful run every memoised result equals compute applied to the results of the commands it reads), sol_unique "
       "(an acyclic graph has at most one such assignment: its evaluation), results_order_independent (any permutation of the commands gives the same results), "
-      "results_unaffected_by_added_commands. Metadata never reaches compute of the data commands (DataCmd has no such field). Each real execute call made while running "
+      "results_unaffected_by_added_commands; data_feeds_data / data_list_feeds / data_wrong_fuzziness (any command declaring a data output of compatible fuzziness is accepted by a data input, directly or in a list, before and after it has run; the wrong fuzziness is refused with the specific error). Metadata never reaches compute of the data commands (DataCmd has no such field). Each real execute call made while running "
       "random typed EEMS models is replayed on the model's exec with its actual inputs; order/metadata/consumer invariance is evaluated on the real programs; every EEMSRead of a model "
-      "is compared with the column its file holds at that moment (files are rewritten between models; values close to the missing-value marker are data); a 450-step model written in dependency order is evaluated, and two models with hand-computed results are run in all 120 orders of their commands.", PB)
+      "is compared with the column its file holds at that moment (files are rewritten between models; values close to the missing-value marker are data); a 450-step model written in dependency order is evaluated, and two models with hand-computed results are run in all 120 orders of their commands; symmetric commands are relisted (bit-identical results for commands that order their inputs themselves, all 24 listings in directed models over measured decimals); "
+      "models whose table holds a non-numeric cell at first are run again on the same Program after the table is repaired.", PB)
 claim("C12", "DESIGN.md 5/C12", "Lean 4 iff-characterisations of load and pre-pass acceptance + fault-injection matrix correspondence + by-construction expectation oracles",
       "Theorems in MPilot.C12: addCommand_ok_iff (accepted by add_command iff result name fresh, required parameters present, no undeclared parameter unless extras allowed), "
       "addCommand_errors / unknown_command (specific error with the offender's line, in the code's order), prepassCmd_ok_iff (pre-pass accepts iff every declared argument cleans), "
